@@ -165,6 +165,8 @@ package jws
 // six methods, the one named by the exact "alg" member
 //@ func verifyJWT(tokenString, publicKey)
 //@   ensures [ok=>verified] result == nil ==> JWTParsedOK(tokenString, publicKey, validMethods)
+// stmt C07/C08: "every envelope that ... carries a valid signature is accepted", whatever claims its payload holds
+//@   ensures [verified=>ok] JWTParsedOK(tokenString, publicKey, validMethods) ==> result == nil
 //@   ensures [typed] result != nil ==> typeof(result) == type(*signature.SignatureIntegrityError)
 
 //@ func (*envelope).payload(e, protected)
